@@ -212,6 +212,8 @@ type Node struct {
 	Book  *accountant.AccountingBook
 	Log   *RecLogger
 	Ver   *MemoVerifier
+	// RetryTicker is the orphan buffer's ticker of this node in the running execution (set by Reset).
+	RetryTicker *vsched.Ticker
 }
 
 // SharedVerifier is used by all nodes of a process.
@@ -254,8 +256,24 @@ func (n *Node) Reset(ctx context.Context, truncateAt uint64) {
 	old := vsched.SpawnClass(vsched.Daemon)
 	defer vsched.SpawnClass(old)
 	n.Log.ResetLog()
+	before := len(vsched.Tickers())
 	if err := n.Book.VerifReset(ctx, truncateAt); err != nil {
 		panic("world: reset failed: " + err.Error())
+	}
+	// let the node's background loops start, so that the retry ticker they create can be told apart from other
+	// nodes' (the order in which daemons of different nodes first run depends on the default schedule)
+	vsched.Settle()
+	n.RetryTicker = nil
+	for _, tk := range vsched.Tickers()[before:] {
+		if tk.D.Seconds() == 2 {
+			if n.RetryTicker != nil {
+				panic("world: node " + n.Name + " created two retry tickers")
+			}
+			n.RetryTicker = tk
+		}
+	}
+	if n.RetryTicker == nil && vsched.Active() {
+		panic("world: node " + n.Name + " created no retry ticker")
 	}
 }
 
